@@ -135,6 +135,8 @@ pub struct Dir {
     pub shutdown_done: bool,
     pub read_calls: u64,
     pub write_calls: u64,
+    /// (absolute offset, xor mask): corrupt the writer's byte stream (hostile peer only)
+    pub corrupt: Vec<(u64, u8)>,
 }
 
 pub struct NetInner {
@@ -261,15 +263,20 @@ impl Net {
     /// Abruptly close direction `d` from the reader's point of view: pending bytes are
     /// lost, the reader sees EOF.
     pub fn cut(&self, d: usize) {
-        let rw = {
+        let (rw, ww) = {
             let mut n = self.lock();
             let dir = &mut n.dirs[d];
             dir.inflight.clear();
             dir.fin_written = true;
             dir.fin_delivered = true;
-            dir.reader_waker.take()
+            // nothing written from now on may reach the reader (it would arrive after a hole)
+            dir.write_err = Some((0, io::ErrorKind::ConnectionReset));
+            (dir.reader_waker.take(), dir.writer_waker.take())
         };
         if let Some(w) = rw {
+            w.wake();
+        }
+        if let Some(w) = ww {
             w.wake();
         }
     }
@@ -453,15 +460,32 @@ impl SimIo {
         }
         let dir = &mut n.dirs[d];
         let mut left = k;
+        let mut pos = dir.written;
         for b in bufs {
             if left == 0 {
                 break;
             }
             let t = b.len().min(left);
-            dir.inflight.extend(&b[..t]);
-            if dir.keep_tap {
-                dir.tap.extend_from_slice(&b[..t]);
+            if dir.corrupt.is_empty() {
+                dir.inflight.extend(&b[..t]);
+                if dir.keep_tap {
+                    dir.tap.extend_from_slice(&b[..t]);
+                }
+            } else {
+                for (i, x) in b[..t].iter().enumerate() {
+                    let mut v = *x;
+                    for (at, m) in &dir.corrupt {
+                        if *at == pos + i as u64 {
+                            v ^= *m;
+                        }
+                    }
+                    dir.inflight.push_back(v);
+                    if dir.keep_tap {
+                        dir.tap.push(v);
+                    }
+                }
             }
+            pos += t as u64;
             left -= t;
         }
         dir.written += k as u64;
